@@ -298,6 +298,38 @@ def attrOf (periodOf : Period → Int → Int) (p : Period) (t : List Int) : Lis
 def emptyFlags (n : Nat) : List Flag := List.replicate n .good
 def fillFlags (a : List Flag) (x : Flag) : List Flag := a.map fun _ => x
 
+/-! ### spread statistics (`attenuated_signal_test`): pandas' time-based rolling window and the two whole-series functions -/
+
+/-- the function applied to every window: `lambda x: x.std()` or `w.apply(np.ptp, raw=True[, engine="numba"])` -/
+inductive WinFunc where | std | ptp
+  deriving DecidableEq, Repr, Inhabited
+/-- the function applied to the whole flattened series: `np.std` or `np.ptp` -/
+inductive CheckFunc where | std | ptp
+  deriving DecidableEq, Repr, Inhabited
+
+def WinFunc.ct : WinFunc → CheckType | .std => .std | .ptp => .range
+def CheckFunc.ct : CheckFunc → CheckType | .std => .std | .ptp => .range
+
+/-- what `pd.Series(inp.flatten(), …)` / a numpy reduction sees of a masked float array: masked or NaN cells are missing -/
+def seriesOf (a : MArr) : List V := a.map fun c => if c.m then none else match c.d with | .num q => some q | .nan => none
+
+/-- `window_func(pd.Series(inp, index=tinp).rolling(f"{test_period}s", min_periods=min_periods))`: one statistic per row over the
+    trailing window `(t - P, t]`; pandas' default `min_periods` for a time window is 1 and a window always needs one observation
+    (`Model/Tests.windowStat` — the pandas behaviour itself is modelled there and tied by the correspondence run of C12). -/
+def rollingApply (wf : WinFunc) (minPeriods : Option Nat) (inp : MArr) (tinp : List Int) (period : Rat) : List Stat :=
+  (List.range inp.length).map fun i => windowStat wf.ct (max (minPeriods.getD 1) 1) (seriesOf inp) tinp period i
+
+/-- `check_func(series)` for the whole masked series -/
+def wholeApply (cf : CheckFunc) (inp : MArr) : Stat := wholeStat cf.ct (seriesOf inp)
+
+/-- `(min_period / time_interval).astype(int)` -/
+def ratioFloor (mp : Rat) (D : Int) : Nat := ((mp / ((D : Int) : Rat)).floor).toNat
+
+/-- `check_val >= θ`, `check_val < θ`, `np.isnan(check_val)` on an array of statistics -/
+def statGe (c : List Stat) (θ : Rat) : List Bool := c.map (·.ge θ)
+def statLt (c : List Stat) (θ : Rat) : List Bool := c.map (·.lt θ)
+def statIsNan (c : List Stat) : List Bool := c.map (·.isUndef)
+
 /-! ## array-level transcriptions -/
 
 /-- `gross_range_test` after the argument checks (spans sorted; `u ⊆ f` verified). -/
